@@ -31,6 +31,10 @@ func runC07(c *Ctx) {
 
 	checkTemplatesDelim(c)
 	checkLineReaders(c)
+	c.Rule("R07j", ruleTextMultilineGuard, 1)
+	checkMultilineGuard(c, "R07j")
+	c.Rule("R07k", ruleTextEnumValuesEscaped, 3)
+	checkEnumValuesEscaped(c, "R07k")
 	c.Rule("R07i", ruleTextDelimTables, 1)
 	checkDelimTables(c, "R07i")
 	checkComments(c)
